@@ -43,7 +43,9 @@ func init() {
 
 func cmdShard(args []string) {
 	fs := flag.NewFlagSet("shard", flag.ExitOnError)
-	mode := fs.String("mode", "crud", "crud|filter|rank|cache|graph|fault")
+	mode := fs.String("mode", "crud", "crud|filter|rank|cache|graph|fault|conc")
+	cold := fs.Bool("cold", false, "conc mode: reopen the shard before the searchers start")
+	readers := fs.Int("readers", 4, "searcher goroutines in conc mode")
 	maxFaults := fs.Int("max-faults", 10, "fault points per batch in fault mode (0 = all)")
 	kills := fs.Int("kills", 2, "kill points per batch in fault mode (besides pre/post commit)")
 	cfgName := fs.String("config", "scalars", "configuration name")
@@ -97,16 +99,28 @@ func cmdShard(args []string) {
 	case "graph":
 		opts.Graph = true
 		opts.Rank = *rank
-	case "fault":
+	case "fault", "conc":
 	default:
 		fmt.Fprintln(os.Stderr, "unknown mode", *mode)
 		os.Exit(2)
+	}
+	if *mode == "conc" {
+		for h := 0; h < *hist; h++ {
+			r := sd.NewRunner(cfg, *seed*1000+int64(h), tw, *dir)
+			if err := r.RunConcHistory(h, sd.ConcOpts{Batches: *batches, Readers: *readers, Rank: *rank, Cold: *cold, MaxBatch: *maxBatch}); err != nil {
+				fmt.Fprintln(os.Stderr, "driver error:", err)
+				os.Exit(2)
+			}
+			tw.Flush()
+		}
+		fmt.Printf("{\"lines\":%d}\n", tw.N)
+		return
 	}
 	if *mode == "fault" {
 		exe, _ := os.Executable()
 		for h := 0; h < *hist; h++ {
 			r := sd.NewRunner(cfg, *seed*1000+int64(h), tw, *dir)
-			fo := sd.FaultOpts{Batches: *batches, MaxFaults: *maxFaults, Kills: *kills, Exe: exe, Rank: *rank, Sample: *sample}
+			fo := sd.FaultOpts{Batches: *batches, MaxFaults: *maxFaults, Kills: *kills, Exe: exe, Rank: *rank, Sample: *sample, MaxBatch: *maxBatch}
 			if err := r.RunFaultHistory(h, fo); err != nil {
 				fmt.Fprintln(os.Stderr, "driver error:", err)
 				os.Exit(2)
